@@ -164,8 +164,30 @@ class Verifier:
                 raise OutsideSubset('loop control leaves function')
             n_ok += 1
             ex._old_state = self.pre_state
-            for j, e in enumerate(getattr(c, 'ensures', [])):
-                ex.goal('%s/ensures#%d' % (name, j), s, ex.spec(e, s, {'result': val}), {'ensures': e})
+            # post_bind: ghost values computed ONCE in the exit state (e.g. the result of a pure query method), so
+            # that the postconditions can refer to them by name instead of re-evaluating the call
+            states = [(s, {'result': val})]
+            for gname, gexpr in (getattr(c, 'post_bind', None) or {}).items():
+                nxt = []
+                for s_b, binds in states:
+                    tmp = s_b.fork()
+                    tmp.env.update(binds)
+                    old_spec, ex._in_spec = getattr(ex, '_in_spec', False), True
+                    old_facts, ex._facts = getattr(ex, '_facts', None), None
+                    try:
+                        rr = ex.eval(ast.parse(gexpr, mode='eval').body, tmp)
+                    finally:
+                        ex._in_spec, ex._facts = old_spec, old_facts
+                    for s_r, v_r in rr:
+                        if smt.feasible(s_r.pc):
+                            b2 = dict(binds)
+                            b2[gname] = v_r
+                            s_r.env = dict(s_b.env)
+                            nxt.append((s_r, b2))
+                states = nxt
+            for s_b, binds in states:
+                for j, e in enumerate(getattr(c, 'ensures', [])):
+                    ex.goal('%s/ensures#%d' % (name, j), s_b, ex.spec(e, s_b, binds), {'ensures': e})
         ex.feasible_paths = len(res)
         # vacuity canary: `ensures False` must be refutable, i.e. some normal exit is reachable
         ex.canary_refuted = any(oc in (Outcome.RET, Outcome.NEXT) and smt.feasible(s.pc) for s, oc, _v in res)
